@@ -15,7 +15,7 @@ PROPS["C12"] = dict(
     design_ref="DESIGN.md section 7 (C12)",
     run_files=["Run/C12Run.v"],
     engines=[dict(cmd=["c12"], corr="Model.KeyEnc.{encode,decode_bytes,decode_stream,incr,bounds} <-> key.Encoder.Encode, key.DecodeBytes, key.Decoder.Decode, fsm.incrementRightmostByte, fsm.iterOptionsForBounds")],
-    level_text="Theorems for all byte strings of any length (round trip, injectivity, three-way order preservation, wildcard coverage, bookkeeping keys outside every expressible range) about a Gallina model of the codec; constants regenerated from the code on every run; model compared with the real codec on enumerated adversarial and random keys.",
+    level_text="Theorems for all byte strings of any length (round trip, injectivity, three-way order preservation, wildcard coverage, bookkeeping keys outside every expressible range) about a Gallina model of the codec; constants regenerated from the code on every run; model compared with the real codec on enumerated adversarial and random keys; on the real state machine: bookkeeping probe over all bound shapes, long shared prefixes, and the wildcard range over keys made of NUL bytes only (lengths 1..1024).",
     level_note="Trusts: Coq kernel; genconst; the correspondence run (model = code only on the generated inputs); Go's bytes.Compare modelled as lex_compare (compared on every case).",
     technique="Coq proof (induction over byte lists, vm_compute on generated constants) + differential correspondence check of the Gallina codec model against the Go codec",
     trusted=["Model/KeyEnc.v hand-written model of storage/table/key and fsm bound construction; Pebble's comparer assumed to be bytewise (DefaultComparer.Compare)"],
@@ -39,7 +39,7 @@ PROPS["C13"] = dict(
     design_ref="DESIGN.md section 7 (C13)",
     run_files=["Run/C13Run.v"],
     engines=[dict(cmd=["c13"], corr="Model.MetaKV.{mupdate,mget,mgetall,mgetallvalues,mlist,mlistdir,msnapshot} <-> kv.LFSM.Update/Lookup/PrepareSnapshot/SaveSnapshot/RecoverFromSnapshot, kv.MapStore")],
-    level_text="Theorems for all entry sequences: CAS outcome (success iff absent or version equal; mismatch reports current pair and leaves the store unchanged), fresh increasing versions over logs with increasing indices, refinement of all lookups to the plain map built by successful updates, exact and sorted glob listings, batching independence, snapshot round trip. Model compared with the real kv.LFSM (incl. its JSON snapshot) on random scenarios; Go side checks the property oracle after every step (get/exists per key, the whole store, directory listings: no stored child dropped, nothing invented) and a second replica.",
+    level_text="Theorems for all entry sequences: CAS outcome (success iff absent or version equal; mismatch reports current pair and leaves the store unchanged), fresh increasing versions over logs with increasing indices, refinement of all lookups to the plain map built by successful updates, exact and sorted glob listings, batching independence, snapshot round trip. Model compared with the real kv.LFSM (incl. its JSON snapshot) on random scenarios; Go side checks the property oracle after every step (get/exists per key, the whole store, listings and directory listings: no stored child or directory dropped - also directories holding keys only deeper down - nothing invented) and a second replica.",
     level_note="Trusts: Coq kernel; genconst (result codes); correspondence run; path.Match modelled for patterns of literals and '*' only and List/ListDir for clean absolute paths only (all that callers use); JSON snapshot modelled as identity on content (exercised by the harness).",
     technique="Coq proof (refinement of a sorted association list to an abstract CAS map, induction over entry lists) + differential correspondence check against kv.LFSM",
     trusted=["Model/MetaKV.v hand-written model of storage/kv/raft.go + map.go; strings modelled as UTF-8 byte lists"],
@@ -113,7 +113,7 @@ PROPS["C03"] = dict(
     design_ref="DESIGN.md section 7 (C03)",
     run_files=["Run/FsmRun.v"],
     engines=[dict(cmd=["c03"], corr="Model.Fsm.Update over partitions <-> fsm.FSM.Update/Open/Close/PrepareSnapshot/SaveSnapshot/RecoverFromSnapshot")],
-    level_text="Theorem for every log and every partition into non-empty apply batches: store (content and both bookkeeping values) and per-entry results are functions of the concatenated log; two partitions of one log give equal replicas. The same log is applied to two real FSMs under two random partitions with reopen and snapshot transfer (both formats and across; the stream written at once or only after the saver applied the next batch, which the receiver then replays) at cut points and compared entry by entry; both runs are also compared with the model.",
+    level_text="Theorem for every log and every partition into non-empty apply batches: store (content and both bookkeeping values) and per-entry results are functions of the concatenated log; two partitions of one log give equal replicas. The same log is applied to two real FSMs under two random partitions with reopen and snapshot transfer (both formats and across; the stream written at once or only after the saver applied the next batch, which the receiver then replays) at cut points and compared entry by entry (leader indices also go DOWN within a log: operator reset, re-pointed follower); both runs are also compared with the model.",
     level_note="Trusts: Coq kernel; reopen and snapshot save/recover are the identity on the store in the model (the correspondence run is what checks the implementation does the same); Pebble-as-sorted-map.",
     technique="Coq proof (Update as a fold refining spec_entries, compositionality over list append) + differential correspondence check on two real FSM instances",
     trusted=_FSM_TRUSTED, label=fsm_label,
@@ -125,7 +125,7 @@ PROPS["C09"] = dict(
     design_ref="DESIGN.md section 7 (C09)",
     run_files=["Run/FsmRun.v"],
     engines=[dict(cmd=["c09"], corr="Model.Cmd.iterate/lookup/iterator_lookup <-> fsm.iterate, rangeLookup, singleLookup, iteratorLookup")],
-    level_text="Theorems for all pair lists, limits and modes, generic in the pair representation: lossless paging, exact counts, 'more' exactly when pairs remain, variants agree, message size bounded by threshold + largest pair + 48 (below the 4 MiB transport limit for the code's constants, re-checked from regenerated constants); exhaustive (table size x limit x mode x bounds) grid and megabyte size-cut layouts on the real FSM compared with the model, plus Go-side oracles of each clause.",
+    level_text="Theorems for all pair lists, limits and modes, generic in the pair representation: lossless paging, exact counts, 'more' exactly when pairs remain, variants agree, message size bounded by threshold + largest pair + 48 (below the 4 MiB transport limit for the code's constants, re-checked from regenerated constants); exhaustive (table size x limit x mode x bounds) grid and megabyte size-cut layouts on the real FSM compared with the model, plus Go-side oracles of each clause; the layers above the state machine (table.ActiveTable.Range, KVServer.Range, KVServer.IterateRange) must hand the state machine's pairs, count and 'more' through unchanged, in one message and in several.",
     level_note="Trusts: Coq kernel; genconst (maxRangeSize, MaxValueLen, key length, transport limit); ProtoSize model of SizeVT (compared through the cut positions on megabyte tables); correspondence run.",
     technique="Coq proof (induction over the chunking loop with accumulators, arithmetic on varint sizes) + exhaustive-grid differential correspondence check against fsm.FSM",
     trusted=_FSM_TRUSTED, label=fsm_label,
@@ -137,7 +137,7 @@ PROPS["C10"] = dict(
     design_ref="DESIGN.md section 7 (C10)",
     run_files=["Run/FsmRun.v"],
     engines=[dict(cmd=["c10"], corr="Model.Linear + Model.Fsm <-> table.ActiveTable.{Put,Delete,Txn,Range} over a simulated Raft host with real fsm.FSM replicas")],
-    level_text="Theorems: every API mutation (incl. a transaction with an empty executed branch) reports revision = its log index, revisions of a log are its indices in order, a replica with k >= a applied entries contains all a acknowledged writes, serializable reads answer from a prefix state; the read-path choice of the table layer is checked on the real table.ActiveTable with a simulated Raft host (three real FSM replicas, seed-chosen lag and batching), whose responses are also compared with the model and the specification; a range read delivered in several messages with a transaction applied between two of them must be one state.",
+    level_text="Theorems: every API mutation (incl. a transaction with an empty executed branch) reports revision = its log index, revisions of a log are its indices in order, a replica with k >= a applied entries contains all a acknowledged writes, serializable reads answer from a prefix state; the read-path choice of the table layer is checked on the real table.ActiveTable with a simulated Raft host (three real FSM replicas, seed-chosen lag and batching), whose responses are also compared with the model and the specification; a range read delivered in several messages with a transaction applied between two of them must be one state; two identical linearizable reads overlapping an acknowledged write (the later one must see it); an error from the table layer for a committed request is a violation.",
     level_note="Trusts: Coq kernel; dragonboat's ReadIndex contract is an explicit assumption (embodied by the simulated host); concurrency between clients is represented by the commit order only (sequential client scripts); Pebble-as-sorted-map.",
     technique="Coq proof (prefix/append lemmas over spec_entries) + simulated-Raft-host differential check through table.ActiveTable",
     trusted=_FSM_TRUSTED + ["simulated Raft host in the harness (harness/c10.go) standing for dragonboat NodeHost"], label=fsm_label,
@@ -149,7 +149,7 @@ PROPS["C06"] = dict(
     design_ref="DESIGN.md section 7 (C06)",
     run_files=["Run/C06Run.v"],
     engines=[dict(cmd=["c06"], corr="Model.LogReader.{simple_query,cached_query,cget,cput,fix_size,replicate} <-> logreader.Simple/Cached.QueryRaftLog, cache.get/put, fixSize, regattaserver.LogServer.Replicate")],
-    level_text="Theorems for every library cut oracle: the uncached reader's answer is exact (empty at applied+1, use-snapshot at/below the compaction point, otherwise a non-empty consecutive prefix from the requested index); the size cut keeps a non-empty prefix; the CACHED reader meets the same contract and preserves the invariant 'the buffer is a contiguous slice of the log' for every cache size and every query (also one whose end is older than what the cache has seen); for any reader service with exact single answers - hence for both readers - the Replicate loop streams exactly the entries F..applied in non-empty batches followed by the up-to-date message. The real readers and LogServer.Replicate run over a contract-faithful fake log (cache sizes 1-12, prepend/append hits, compaction with invalidation, stale range ends) and are compared with the model and with the property oracle.",
+    level_text="Theorems for every library cut oracle: the uncached reader's answer is exact (empty at applied+1, use-snapshot at/below the compaction point, otherwise a non-empty consecutive prefix from the requested index); the size cut keeps a non-empty prefix; the CACHED reader meets the same contract and preserves the invariant 'the buffer is a contiguous slice of the log' for every cache size and every query (also one whose end is older than what the cache has seen); for any reader service with exact single answers - hence for both readers - the Replicate loop streams exactly the entries F..applied in non-empty batches followed by the up-to-date message. The real readers and LogServer.Replicate run over a contract-faithful fake log (cache sizes 1-12, prepend/append hits, compaction with invalidation, stale range ends, payloads that carry a leader index of their own) and are compared with the model and with the property oracle; the invalidation is also exercised as dragonboat's compaction events delivered through a real storage.Engine's listener.",
     level_note="Trusts: Coq kernel; dragonboat's reader contract (non-empty prefix of the range, ErrCompacted below the marker) as modelled and as implemented by the harness's fake reader; the cache is invalidated as a whole on compaction (Cached.LogCompacted), modelled as atomic - the window between a compaction and its notification is not modelled; correspondence run.",
     technique="Coq proof (consecutive-index lemmas over filtered logs, case analysis of the cached reader over canonical runs of entries, fuel induction over the Replicate loop for an abstract exact reader) + differential correspondence check of logreader and LogServer against the model on a contract-faithful fake log",
     trusted=["Model/LogReader.v hand-written model of storage/logreader and LogServer.Replicate; dragonboat ReadonlyLogReader by contract"],
@@ -161,7 +161,7 @@ PROPS["C07"] = dict(
     design_ref="DESIGN.md section 7 (C07)",
     run_files=["Run/C07Run.v"],
     engines=[dict(cmd=["c07"], corr="Model.Restore.{read_into_table,restored,table_stream} + Model.Framing <-> table.Manager.Restore/readIntoTable, fsm.commandSnapshot, snapshot.snapshotFile/Writer/Reader", timeout=1200)],
-    level_text="Theorems for every in-memory-log-size setting, table content and chunking: the framed (and compressed, for any round-tripping compressor) command stream is read back with the same message boundaries; the proposed batches carry exactly the stream's pairs; the final message's index is the recorded leader index; loading into the fresh shard yields exactly the captured sorted content. Restores run through the real table.Manager on a single-node dragonboat NodeHost with thresholds on every record position, chunk sizes 1 B..1 MiB, a concurrent writer during capture, pre-existing content and (every third plan) an earlier restore of other content that broke off mid-stream, compared with the model.",
+    level_text="Theorems for every in-memory-log-size setting, table content and chunking: the framed (and compressed, for any round-tripping compressor) command stream is read back with the same message boundaries; the proposed batches carry exactly the stream's pairs; the final message's index is the recorded leader index; loading into the fresh shard yields exactly the captured sorted content. Restores run through the real table.Manager on a single-node dragonboat NodeHost with thresholds on every record position, chunk sizes 1 B..1 MiB, a concurrent writer during capture, pre-existing content and (every third plan) an earlier restore of other content that broke off mid-stream, compared with the model. The manifest gate of the backup client is a theorem (only files whose checksum matches are uploaded; the first mismatch ends the run; earlier tables only) and the operator path runs for real: backup client, Maintenance and Cluster gRPC services, storage.Engine - backup / change / restore of tables of 0, 5 and 3 large pairs, swapped and emptied backup files refused without touching a table.",
     level_note="Trusts: Coq kernel; snappy round trip is a hypothesis of the stream theorem (exercised, not proved); the restore target is a fresh shard (C14); Raft delivers the proposals in order; the backup manifest checksum gate is covered by C18's harness only.",
     technique="Coq proof (induction over the batching loop with accumulators, sorted-insertion lemma, frame parser with fuel) + differential correspondence check through table.Manager.Restore on an in-memory NodeHost",
     trusted=["Model/Restore.v, Model/Framing.v hand-written models of storage/table/manager.go readIntoTable/Restore and replication/snapshot"],
@@ -174,7 +174,7 @@ PROPS["C18"] = dict(
     run_files=["Run/C18Run.v", "Run/C07Run.v"],
     engines=[dict(cmd=["c18"], corr="Model.ProtoWire.{msg_enc,msg_dec,varint_enc,varint_dec} <-> regattaserver/encoding/proto Codec + regattapb *_vtproto.pb.go MarshalVT/UnmarshalVT"),
              dict(cmd=["c07", "--framing-only"], summary="c07", corr="Model.Framing <-> snapshot.snapshotFile/Writer/Reader", timeout=600)],
-    level_text="Theorems: varint and field-list encode/decode round trip for every well-formed field list (all wire types, nesting as byte fields, any sizes), decode into a recycled object equals decode into a fresh one, frames survive every chunking under any round-tripping compressor. The real registered codec is run on generated messages of the API/replication types (every oneof arm, absent vs empty, nil vs empty, 64-bit extremes) with bytes compared to the wire model's encoding of the reflected field tree, fresh and recycled receivers; the pooled Command as the code uses it (snapshot writer, then the replication worker's SEQUENCE); gzip/snappy/zstd under 16 goroutines (panics caught and reported); snapshot files through Writer/Reader at chunk sizes 1 B..1 MiB.",
+    level_text="Theorems: varint and field-list encode/decode round trip for every well-formed field list (all wire types, nesting as byte fields, any sizes), decode into a recycled object equals decode into a fresh one, frames survive every chunking under any round-tripping compressor. The real registered codec is run on generated messages of the API/replication types (every oneof arm, absent vs empty, nil vs empty, 64-bit extremes) with bytes compared to the wire model's encoding of the reflected field tree, fresh and recycled receivers; the pooled Command as the code uses it (snapshot writer, then the replication worker's SEQUENCE); gzip/snappy/zstd under 16 goroutines (panics caught and reported); snapshot files through Writer/Reader at chunk sizes 1 B..1 MiB, length prefixes around the compressed format's block boundaries, large messages written from one reused buffer.",
     level_note="Trusts: Coq kernel; the schema layer (which Go field a number denotes, proto3 default omission, oneof) is reflected by the harness from the generated descriptors, not proved; compressor correctness and sync.Pool behaviour under the Go scheduler are exercised, not proved (PARTIAL).",
     technique="Coq proof (varint arithmetic, parser-with-fuel induction) + differential correspondence check of vtprotobuf bytes against the wire model, concurrency exercise of pooled compressors",
     trusted=["Model/ProtoWire.v hand-written model of the protobuf wire format", "Model/Framing.v"],
@@ -186,7 +186,7 @@ PROPS["C11"] = dict(
     design_ref="DESIGN.md section 7 (C11)",
     run_files=["Run/C11Run.v"],
     engines=[dict(cmd=["c11"], corr="Model.Queue.step + Model.Heap <-> storage.IndexNotificationQueue.Run, util/heap", timeout=900)],
-    level_text="Heap ORDER invariant proved (New establishes it, Push and Pop keep it, the root is a minimum), carried over the whole table map for every completed event sequence, hence promptness: after a handled notification of leader index r nobody in that table's queue waits for a revision <= r. Theorems over all event sequences (adds with any revisions and tables, cancellations, notifications, sweeps, caller reads, length queries), per handler AND composed over the whole table map (GInv: C11_loop_never_wedges - from the initial state every event sequence with fresh waiter ids is handled to the end): no handler ever blocks or panics, every waiter receives at most one answer, an OK answer is preceded by a notification at or beyond the waiter's revision, an error answer by its cancellation, and a sweep leaves no cancelled waiter behind. The real queue (real 1 s ticker) and util/heap are compared with the model on event scripts and operation sequences.",
+    level_text="Heap ORDER invariant proved (New establishes it, Push and Pop keep it, the root is a minimum), carried over the whole table map for every completed event sequence, hence promptness: after a handled notification of leader index r nobody in that table's queue waits for a revision <= r. Theorems over all event sequences (adds with any revisions and tables, cancellations, notifications, sweeps, caller reads, length queries), per handler AND composed over the whole table map (GInv: C11_loop_never_wedges - from the initial state every event sequence with fresh waiter ids is handled to the end): no handler ever blocks or panics, every waiter receives at most one answer, an OK answer is preceded by a notification at or beyond the waiter's revision, an error answer by its cancellation, and a sweep leaves no cancelled waiter behind. The real queue (real 1 s ticker) and util/heap are compared with the model on event scripts and operation sequences; a real follower engine (applied-index reports feeding the queue) is taken through an operator reset with a waiter across it.",
     level_note="Trusts: Coq kernel; Go channel/select semantics abstracted to one event at a time (a send on a full capacity-1 channel blocks the loop); that the notified index implies the write is applied rests on C05.",
     technique="Coq proof (invariant over the event-loop state machine, permutation lemmas for the array heap) + differential correspondence check against the real queue under its real ticker",
     trusted=["Model/Queue.v, Model/Heap.v hand-written models of storage/queue.go and util/heap"],
@@ -198,7 +198,7 @@ PROPS["C04"] = dict(
     design_ref="DESIGN.md section 7 (C04)",
     run_files=["Run/C04Run.v", "Mutants/DirProtoMutants.v"],
     engines=[dict(cmd=["c04"], corr="Model.DirProto.{expand,exec1,crash,reopen} <-> fsm.FSM Open/Update/Sync/Close/RecoverFromSnapshot + pebble/dir.go over Pebble's strict in-memory file system", timeout=1500)],
-    level_text="Theorem for every history of operations (open, update, sync, close, snapshot install), every crash point between two primitive file-system / Pebble steps, every survival oracle and any number of crashes: a reopen succeeds and shows b whole batches with acknowledged <= b <= applied; the invariant (the durable 'current' names a durably present DB directory whose durable content covers everything acknowledged) is proved after every single primitive step; the reopened state is again good (repeated crashes) and replay goes through the ordinary update path. The original first-open order is refuted in the model (Mutants/DirProtoMutants.v). The real fsm.FSM runs over Pebble's strict MemFS: every sync operation of fixed and random scenarios is a crash point (plus a second crash during recovery); the Go oracle checks index/content/last-sync/replay on the real state, Coq checks the recorded protocol events against the model's steps and that the model admits every outcome.",
+    level_text="Theorem for every history of operations (open, update, sync, close, snapshot install), every crash point between two primitive file-system / Pebble steps, every survival oracle and any number of crashes: a reopen succeeds and shows b whole batches with acknowledged <= b <= applied; the invariant (the durable 'current' names a durably present DB directory whose durable content covers everything acknowledged) is proved after every single primitive step; the reopened state is again good (repeated crashes) and replay goes through the ordinary update path. The original first-open order is refuted in the model (Mutants/DirProtoMutants.v). The real fsm.FSM runs over Pebble's strict MemFS: every sync operation of fixed and random scenarios is a crash point (plus a second crash during recovery); the Go oracle checks index/content/last-sync/replay on the real state (scenarios incl. a large mixed batch and batches that stage no write at all), Coq checks the recorded protocol events against the model's steps and that the model admits every outcome.",
     level_note="PARTIAL where Pebble is concerned: the model assumes Pebble's own guarantees (atomic batches, flush/ingest durable when they return, a durably present DB directory reopens with its durable content); these are exercised on the real Pebble at every sync boundary but not proved. The ancestors of the table directory (<base>/<host>) are outside the model (exercised: CreateNodeDataDir). The content of b batches being 'exactly entries 1..i' is C01/C02's theorem about the batch step, not re-proved here. Fault model as in the property (fsync granularity; no torn writes inside a synced file).",
     technique="Coq proof (inductive invariant over primitive steps of the directory protocol with crash, at every prefix of every operation) + exhaustive crash-point enumeration of the real state machine on a strict in-memory file system",
     trusted=["Model/DirProto.v hand-written model of the current/current.updating protocol and of the operations' step sequences", "Pebble's crash guarantees as stated in Model/DirProto.v"],
@@ -211,7 +211,7 @@ PROPS["C05"] = dict(
     run_files=["Run/C05Run.v", "Mutants/ReplicationMutants.v"],
     engines=[dict(cmd=["c05"], corr="Model.Replication.follows (the proposals a worker may make: Model.Replication.step/propose) <-> the follower table's own raft log produced by replication.worker against regattaserver.LogServer/SnapshotServer", timeout=1800),
              dict(cmd=["c05multi"], summary="c05multi", corr="Model.Replication guard (a poll acts on the follower's current leader index) <-> replication.worker.tableState on a three-node follower cluster with a lagging replica taking over the lease", timeout=900)],
-    level_text="Theorems, generic in the table state machine (so non-idempotent transactions and range deletes are covered): for every interleaving of leader writes, leader log compactions, worker polls (any number of entries delivered, any chunking into proposals) and snapshot recoveries the follower's content equals the leader's content as of the recorded leader index - every leader entry exactly once, in leader order; the index never moves backwards and what it denotes never changes; a served poll makes progress, a complete stream or a recovery reaches the leader's latest state; a follower log accepted by [follows] is explained by the model. Full system in one process (real leader and follower storage.Engine, real gRPC replication services with the cached log reader, real replication.Manager/worker): random histories while replicating, compacted leader log (snapshot recovery), small message limit, follower engine restart; every 2 ms sample (leader index, content) of the follower is compared with a reference replay of the leader's raft log at exactly that index; the follower's own raft log is validated against the model in Coq.",
+    level_text="Theorems, generic in the table state machine (so non-idempotent transactions and range deletes are covered): for every interleaving of leader writes, leader log compactions, worker polls (any number of entries delivered, any chunking into proposals) and snapshot recoveries the follower's content equals the leader's content as of the recorded leader index - every leader entry exactly once, in leader order; the index never moves backwards and what it denotes never changes; a served poll makes progress, a complete stream or a recovery reaches the leader's latest state; a follower log accepted by [follows] is explained by the model. Full system in one process (real leader and follower storage.Engine, real gRPC replication services with the cached log reader, real replication.Manager/worker): random histories while replicating, compacted leader log (snapshot recovery), small message limit, follower engine restart; every 2 ms sample (leader index, content) of the follower is compared with a reference replay of the leader's raft log at exactly that index; the follower's own raft log is validated against the model in Coq and, on the Go side, against 'each leader command once, in leader order'; variants incl. a second reader that filled the leader's log cache ahead of the follower; the table set is followed down to no table at all.",
     level_note="PARTIAL: (1) the theorem assumes that a poll acts on the follower's CURRENT leader index ([guarded]). For a node whose replica lags and that takes over the lease this was violated by the original code (stale local read; reproduced on a three-node follower cluster, repaired by a linearizable read, KNOWN_FINDINGS F-C05-stale-leader-index; the scenario is part of every run). What remains assumed and is neither proved nor exercised: a proposal that timed out at the worker is not committed later (after the next poll read the index) - the code has no fence against that. (2) Convergence of the SET of tables: creation and deletion are exercised; delete-and-recreate under the same name within one reconcile interval is an open finding (the metadata carries names only). (3) What one Replicate stream carries is C06's theorem, the snapshot transport C07's, the atomic SEQUENCE C03's; here they are composed, not re-proved. Timing (poll/lease/reconcile intervals) is real time: liveness is checked with a 40 s bound.",
     technique="Coq proof (inductive invariant over an interleaving semantics of leader, compaction, worker polls with arbitrary chunking and snapshot recovery, generic in the state machine; trace-validation lemma) + full-system differential run with reference replay of the leader log and Coq validation of the follower's raft log",
     trusted=["Model/Replication.v hand-written model of worker.do/proposeBatch/recover and of what LogServer ships (C06)", "reference replay through a real fsm.FSM as the oracle for 'leader content at index i'"],
@@ -224,7 +224,7 @@ PROPS["C08"] = dict(
     run_files=["Run/C08Run.v", "Run/C04Run.v"],
     engines=[dict(cmd=["c08"], corr="Model.Fsm.fsm_steps + Model.Snapshot.{snap_header,recover} <-> fsm.FSM PrepareSnapshot/SaveSnapshot/RecoverFromSnapshot (both formats, across formats)", timeout=1500),
              dict(cmd=["c04", "--installs"], summary="c04", corr="Model.DirProto.{expand HRecover,crash,reopen} <-> RecoverFromSnapshot cut by a crash at every sync operation (strict in-memory file system)", timeout=1500)],
-    level_text="Theorems: the receiver ends with exactly the store value pinned at prepare time for every pair of formats, whatever the saver applies while saving and whatever the receiver held; header round trip and dispatch; an install cut by a crash at ANY primitive step (any survival oracle) reopens with the whole snapshot or with what the old DB held (Model/DirProto.v); an install given up on the stop signal or a broken stream leaves the live DB, all contents and 'current' untouched and the state good; reader specification (old state or clean failure, new state after the install). Real replicas: random histories, writes between prepare and save and during save (one batch per Write call), all four format pairs, receivers with other content, close+reopen of the receiver; stop signal / stream failure at every byte offset of small streams (sampled for large ones); readers across an install (lazy sequences, half-consumed multi-chunk sequences, lookups). The receiver's content and indices are compared with the model's state after exactly the batches applied before prepare.",
+    level_text="Theorems: the receiver ends with exactly the store value pinned at prepare time for every pair of formats, whatever the saver applies while saving and whatever the receiver held; header round trip and dispatch; an install cut by a crash at ANY primitive step (any survival oracle) reopens with the whole snapshot or with what the old DB held (Model/DirProto.v); an install given up on the stop signal or a broken stream leaves the live DB, all contents and 'current' untouched and the state good; reader specification (old state or clean failure, new state after the install). Real replicas: random histories, writes between prepare and save and during save (one batch per Write call), all four format pairs, receivers with other content, close+reopen of the receiver; stop signal / stream failure at every byte offset of small streams (sampled for large ones) on the receiver, and an interrupted SAVE (stop signal, failing sink) must report an error; readers across an install (lazy sequences, half-consumed multi-chunk sequences, lookups). The receiver's content and indices are compared with the model's state after exactly the batches applied before prepare.",
     level_note="PARTIAL: the snapshot body (SST files / tar of a checkpoint) is Pebble's and the tar library's data and is not modelled byte by byte - faithfulness of the body is the differential run against the state-machine model (content, applied index, leader index), the theorem covers regatta's part (value pinned at prepare, header dispatch, whole replacement). The reader clause is a specification only: the implementation violates it (two open findings, KNOWN_FINDINGS.json: lazy sequences consumed after an install panic; streaming reads across an install crash inside Pebble and hang); plain lookups racing inside the window between loading the DB pointer and opening the iterator cannot be scheduled without a hook and are not exercised. Crash atomicity rests on the Pebble assumptions of C04.",
     technique="Coq proof (install all-or-nothing from the directory-protocol invariant at every primitive step; value semantics of the pinned snapshot; header dispatch) + differential run of real replicas of both formats against the state-machine model, with exhaustive byte-offset interruption",
     trusted=["Model/Snapshot.v and Model/DirProto.v hand-written models", "Pebble snapshots/checkpoints/ingestion and archive/tar as the body codec"],
@@ -248,7 +248,7 @@ PROPS["C14"] = dict(
     design_ref="DESIGN.md section 7 (C14)",
     run_files=["Run/C14Run.v", "Mutants/CatalogueMutants.v"],
     engines=[dict(cmd=["c14"], corr="Model.Catalogue.{cexec,to_start,to_stop} <-> table.Manager.createTable/incAndGetIDSeq/DeleteTable/GetTables, diffTables", timeout=900)],
-    level_text="Theorems for every interleaving of create/delete/restore/list calls (restores incl. streams that break off and retries) of any number of managers at single-store-operation granularity: ids given to created or restored tables are pairwise distinct, every id drawn from the sequence is above every id drawn before (inductive invariant over the id sequence's compare-and-set), a restore never re-uses the recovery id an interrupted attempt left behind (refuted for the re-using variant in Mutants/CatalogueMutants.v), undisturbed it succeeds and switches the table to the new id, an existing name is refused, the three steps of a creation succeed when undisturbed, the second of two racing creations of one name fails, listing is exact, diffTables starts/stops exactly the right shards, per-id isolation of table data. Real managers run over the real kv.LFSM CAS semantics behind a scheduler (all interleavings of call pairs + random schedules, incl. Restore with complete and interrupted streams), real diffTables on random inputs (against the model and a set oracle), and a real Manager on a NodeHost for emptiness of recreated tables, isolation, slash and prefix names, and a restore after an interrupted restore (new id, stream content only).",
+    level_text="Theorems for every interleaving of create/delete/restore/list calls (restores incl. streams that break off and retries) of any number of managers at single-store-operation granularity: ids given to created or restored tables are pairwise distinct, every id drawn from the sequence is above every id drawn before (inductive invariant over the id sequence's compare-and-set), a restore never re-uses the recovery id an interrupted attempt left behind (refuted for the re-using variant in Mutants/CatalogueMutants.v), undisturbed it succeeds and switches the table to the new id, an existing name is refused, the three steps of a creation succeed when undisturbed, the second of two racing creations of one name fails, listing is exact, diffTables starts/stops exactly the right shards, per-id isolation of table data. Real managers run over the real kv.LFSM CAS semantics behind a scheduler (all interleavings of call pairs + random schedules, incl. Restore with complete and interrupted streams; two waiting writes optionally applied by ONE LFSM.Update call; every listing compared with the records present at that moment), real diffTables on random inputs (against the model and a set oracle), and a real Manager on a NodeHost for emptiness of recreated tables, isolation, slash and prefix names, and a restore after an interrupted restore (new id, stream content only).",
     level_note="Trusts: Coq kernel; genconst (tableIDsRangeStart); table names are path segments (names with '/' are rejected by the repaired code); emptiness of a new table rests on dragonboat giving a fresh shard id a fresh state machine directory (exercised on a real NodeHost, not proved); Restore's catalogue steps are part of the model and run interleaved with the other managers' calls on a real NodeHost (one per case); what the recovery shard then contains is C07's theorem.",
     technique="Coq proof (inductive invariant over an interleaving semantics of store programs, permutation reasoning on pending ids) + scheduler-controlled differential check of table.Manager",
     trusted=["Model/Catalogue.v hand-written model of the catalogue programs in storage/table/manager.go"],
@@ -260,7 +260,7 @@ PROPS["C16"] = dict(
     design_ref="DESIGN.md section 7 (C16)",
     run_files=["Run/C16Run.v"],
     engines=[dict(cmd=["c16"], corr="Model.Validate.{range_status,put_status,del_status,txn_status,create_status,delete_status} <-> regattaserver.KVServer/TablesServer/ReadonlyTablesServer + table.ActiveTable validators", timeout=900)],
-    level_text="Theorems over all requests (reduced to the features the validators inspect): every documented constraint yields its status class, an accepted request satisfies all of them, and the key/value limits hold on every path that can create a record including operations nested in transactions. The real KVServer + table.ActiveTable (over a simulated Raft host with real state machines) and the tables servers are run on an enumerated grid of field combinations and a malformed stream; status codes are compared with the model, the table content is read back after every rejection, panics are caught and reported; requests with extreme numeric fields run in a child process whose death is reported with the request it announced last.",
+    level_text="Theorems over all requests (reduced to the features the validators inspect): every documented constraint yields its status class, an accepted request satisfies all of them, and the key/value limits hold on every path that can create a record including operations nested in transactions. The real KVServer + table.ActiveTable (over a simulated Raft host with real state machines) and the tables servers are run on an enumerated grid of field combinations and a malformed stream; status codes are compared with the model, the table content is read back after every rejection, panics are caught and reported; requests with extreme numeric fields run in a child process whose death is reported with the request it announced last; unknown tables with non-UTF-8 or control-character names are unknown tables.",
     level_note="PARTIAL: 'no request terminates the process' is exercised (enumerated grid + random garbage, panics caught), not proved - a theorem about total Gallina validators says nothing about Go panics. Requests are called on the server objects directly, not through a network listener (gRPC decoding is C18's codec). storage.Engine's table routing is re-implemented in the harness (three lines per method).",
     technique="Coq proof (case analysis of the validator decision functions) + enumerated differential check of the real servers' status codes and effects",
     trusted=["Model/Validate.v hand-written model of the validators in regattaserver/kv.go, tables.go and storage/table/table.go"],
